@@ -6,7 +6,7 @@ from vlib import Violation
 
 PID = "C02"
 TARGETS = ["Run.vo", "Header_proofs.vo", "Message_proofs.vo", "NonVacuous/C02.vo"]
-IMPORTS = "From VF Require Import Base Show Gen_Errors Lexer Response Tree Scripted HeaderSpec Run."
+IMPORTS = "From VF Require Import Base Show Gen_Errors Lexer Response Conv Tree Scripted HeaderSpec Run."
 ALLOWED_AXIOMS = []
 PROFILES = ["debug"]
 RULE = ("random command trees (depth <= 3, default leaves and default branches, anonymous default leaf, numeric-suffixed siblings, a "
@@ -173,7 +173,8 @@ def generate(rng, tier):
             msgs.append(render_units(rng, units))
             exps.append(expected_log(root, units) if wf_tree(root) else (None, None))
         out.append(mk(treegen.case_line("v", sub, tg.scripts, msgs), exps, root, None))
-    return out
+    import stress
+    return out + [mk(l) for l in stress.tree_stream(tier)]
 
 
 def harness_line(c): return c["line"]
